@@ -553,7 +553,7 @@ impl Property for C01 {
         if rng.chance(30) {
             // several projects reusing target names, dependencies spelled as `dependencies`, as
             // `X.output`, or both, within and across projects
-            let mut sc = gen::gen_io(rng, &gen::IoOpts { multi_project_pct: 100, max_targets: 7, cmd_pct: 10, cmd_output_pct: 0, own_output_inside_input_pct: 0 });
+            let mut sc = gen::gen_io(rng, &gen::IoOpts { multi_project_pct: 100, max_targets: 7, cmd_pct: 10, cmd_output_pct: 0, own_output_inside_input_pct: 0, long_name_len: 0 });
             let args = gen::gen_request_io(rng, &sc, 0);
             if !args.is_empty() {
                 let inv = standard_invocation(rng, &sc, args);
@@ -618,7 +618,7 @@ impl Property for C08 {
         if rng.chance(30) {
             // several projects with the same target names: names must resolve inside the
             // declaring project, or a target outside the closure runs
-            let mut sc = gen::gen_io(rng, &gen::IoOpts { multi_project_pct: 100, max_targets: 7, cmd_pct: 10, cmd_output_pct: 0, own_output_inside_input_pct: 0 });
+            let mut sc = gen::gen_io(rng, &gen::IoOpts { multi_project_pct: 100, max_targets: 7, cmd_pct: 10, cmd_output_pct: 0, own_output_inside_input_pct: 0, long_name_len: 243 });
             // a link inside one target's filtered output directory to the output directory of
             // another target of the same project: not part of the former's outputs
             let mut links = vec![];
@@ -707,6 +707,9 @@ impl Property for C08 {
     fn evaluate(&self, sc: &Scenario, root: &Path, stats: &mut Stats) -> Option<Violation> {
         let mut case = match materialize(sc, root) {
             Ok(c) => c,
+            // a generated file name built from a very long target name may not fit in a
+            // directory entry: such a layout cannot exist, the case is void
+            Err(e) if e.raw_os_error() == Some(libc::ENAMETOOLONG) => return None,
             Err(e) => {
                 stats.harness_errors.push(format!("materialize: {}", e));
                 return None;
@@ -776,6 +779,22 @@ fn outsider_snapshot(sc: &Scenario, case: &Case, inv: &Invocation) -> BTreeMap<S
         for path in paths {
             if let (Ok(md), Ok(b)) = (std::fs::metadata(&path), std::fs::read(&path)) {
                 m.insert(path.to_string_lossy().into_owned(), (md.mtime() as i128 * 1_000_000_000 + md.mtime_nsec() as i128, b));
+            }
+        }
+    }
+    // whatever else lies in a work directory and is not the record of a target of the closure
+    // (records kept under another name, of targets that no longer exist, ...) is not this run's
+    let own: BTreeSet<std::path::PathBuf> = clo.iter().map(|t| case.project_dir(sc, t.0).join(".zinoma").join(format!("{}.checksums", sc.display(t.0, &t.1)))).collect();
+    for p in 0..sc.projects.len() {
+        if let Ok(rd) = std::fs::read_dir(case.project_dir(sc, p).join(".zinoma")) {
+            for e in rd.flatten() {
+                let path = e.path();
+                if own.contains(&path) {
+                    continue;
+                }
+                if let (Ok(md), Ok(b)) = (std::fs::metadata(&path), std::fs::read(&path)) {
+                    m.insert(path.to_string_lossy().into_owned(), (md.mtime() as i128 * 1_000_000_000 + md.mtime_nsec() as i128, b));
+                }
             }
         }
     }
